@@ -194,7 +194,12 @@ def register(reg):
        ensures=INV + selfpath(AFTER))
     fn("VHCT.get_last_point", N=N, props="C01 C15", params={}, returns="list[real]",
        requires=INV, modifies=["self.path", "self.curr_node", "*VHCT_node.tau"],
-       ensures=INV + [("result", "defined(self.curr_node) and result is self.curr_node.c_point", "C01")])
+       ensures=INV + [("result", "defined(self.curr_node) and result is self.curr_node.c_point", "C01"),
+                      # a recommendation query re-derives the pull path by the same rule (so it is harmless between rounds)
+                      ("path", "defined(self.path) and fresh(self.path) and PathOK(self.partition, self.path)", "C04 C05 C15"),
+                      ("end", "self.curr_node is self.path[len(self.path) - 1] and self.path[0] is self.partition.root", "C04 C05 C15"),
+                      ("stops", "VHCT_Stops(self.path)", "C04 C05 C15"),
+                      ("greedy", "Greedy(self.path)", "C04 C05 C15")])
     fn("VHCT.__init__", N=N, props="C01 C03 C06",
        params={"nu": "real", "rho": "real", "c": "real", "delta": "real", "bound": "real", "domain": "list?[list[real]]",
                "partition": "cls?:Partition"},
